@@ -257,4 +257,83 @@ Proof.
   apply decode_encode_f; [assumption|lia].
 Qed.
 
+(* ---------------------------------------------------------------- triedb/codec.Decode *)
+Definition cvchild (oc : option tnode) : option cchild :=
+  match oc with
+  | None => None
+  | Some c => let e := encode H c in
+              if (length e <? 32)%nat then Some (CInline (e, 0)) else Some (CHashed (h256_of (H e)))
+  end.
+
+Lemma zb_take_H x : zb_take 32 (H x, 0) = H x.
+Proof.
+  unfold zb_take. cbn [fst snd]. change (N.to_nat 0) with O. rewrite Nat.min_0_r.
+  unfold zeros. cbn [repeat]. rewrite app_nil_r. rewrite <- (Hlen x). apply firstn_all.
+Qed.
+
+Lemma cdec_children_enc bitmap rest :
+  forall cs i,
+  (forall j, (j < length cs)%nat -> N.testbit bitmap (N.of_nat (i + j)) = is_some (nth j cs None)) ->
+  cdec_children st (map N.of_nat (seq i (length cs))) bitmap (flat_map enc_child cs ++ rest)
+  = Ok (map cvchild cs).
+Proof.
+  induction cs as [|oc t IH]; intros i Hbits.
+  - reflexivity.
+  - cbn [length seq map cdec_children].
+    pose proof (Hbits O ltac:(cbn; lia)) as Hb0. rewrite Nat.add_0_r in Hb0. cbn [nth] in Hb0.
+    assert (Hbits' : forall j, (j < length t)%nat ->
+                               N.testbit bitmap (N.of_nat (S i + j)) = is_some (nth j t None)).
+    { intros j Hj. specialize (Hbits (S j) ltac:(cbn; lia)). cbn [nth] in Hbits.
+      rewrite <- Hbits. f_equal. lia. }
+    rewrite Hb0. destruct oc as [c|]; cbn [is_some].
+    + cbn [flat_map enc_child]. rewrite <- app_assoc.
+      rewrite dec_bytes_enc by apply merkle_len. cbn [relabel obind].
+      rewrite (IH (S i) Hbits'). cbn [obind cvchild map].
+      rewrite zb_len_of. unfold merkle_value.
+      destruct (Nat.ltb_spec (length (encode H c)) 32) as [Hs|Hs].
+      * destruct (N.ltb_spec (lenN (encode H c)) 32) as [_|Hc]; [reflexivity|unfold lenN in Hc; lia].
+      * destruct (N.ltb_spec (lenN (H (encode H c))) 32) as [Hc|_]; [rewrite lenN_H in Hc; lia|].
+        now rewrite zb_take_H.
+    + cbn [flat_map enc_child app cvchild map].
+      rewrite (IH (S i) Hbits'). reflexivity.
+Qed.
+
+Lemma cview_branch pk sv mbh c0 cs0 :
+  cview H (TN pk sv mbh (c0 :: cs0)) =
+  CBranch pk (match sv with
+              | Some v => Some (if mbh then DVHashed (h256_of (H v)) else DVInline (v, 0))
+              | None => None end) (map cvchild (c0 :: cs0)).
+Proof. reflexivity. Qed.
+
+Theorem cdecode_encode n rest : wf_node n = true ->
+  cdecode st fixed (encode H n ++ rest) = Ok (cview H n).
+Proof.
+  destruct n as [pk sv mbh cs]. intro W.
+  destruct (wf_unfold _ _ _ _ W) as (Wpk & Wl & Wsv & Wcs & Wch).
+  rewrite encode_unfold. unfold cdecode. rewrite <- !app_assoc.
+  rewrite decode_header_encode by (auto using variant_of_node).
+  cbn [obind].
+  destruct cs as [|c0 cs0].
+  - destruct sv as [v|]; [|destruct Wsv as [_ Wn]; congruence].
+    cbn [variant_of negb]. destruct mbh.
+    + rewrite decode_key_encode by (now apply nibbles_ok_P). cbn [obind app].
+      rewrite dec_hashed_app by apply lenN_H. reflexivity.
+    + rewrite decode_key_encode by (now apply nibbles_ok_P). cbn [obind app].
+      rewrite dec_bytes_enc by assumption. reflexivity.
+  - remember (c0 :: cs0) as cs eqn:Ecs.
+    assert (Hl16 : length cs = 16%nat) by (destruct Wcs as [Z|Z]; [subst; discriminate|exact Z]).
+    assert (Hch : forall r1, cdec_children st child_indices
+                      (le_val (le_bytes 2 (bitmap_of cs 0))) (flat_map enc_child cs ++ r1)
+                    = Ok (map cvchild cs)).
+    { intro r1. rewrite child_indices_seq. rewrite <- Hl16. apply cdec_children_enc.
+      intros j Hj. rewrite Nat.add_0_l. rewrite testbit_bitmap_read by lia. now rewrite Nat2N.id. }
+    assert (Hbm : lenN (le_bytes 2 (bitmap_of cs 0)) <? 2 = false) by reflexivity.
+    unfold variant_of. cbn [negb]. destruct sv as [v|]; [destruct mbh|];
+      rewrite decode_key_encode by (now apply nibbles_ok_P); cbn [obind];
+      rewrite rd2_le_bytes, Hbm; subst cs; rewrite cview_branch.
+    + rewrite dec_hashed_app by apply lenN_H. cbn [obind]. rewrite Hch. reflexivity.
+    + rewrite dec_bytes_enc by assumption. cbn [relabel obind]. rewrite Hch. reflexivity.
+    + cbn [app obind]. rewrite Hch. reflexivity.
+Qed.
+
 End RoundTrip.
